@@ -357,6 +357,82 @@ def fam_import(tier, src=None):
                         D("k0", NODES[n][0], REF("g." + n, None, src), None)])
 
 
+def fam_inject_twice(tier, src=None):
+    """the SAME path is injected several times with modifications of the referenced node in between and NO new node
+    in between (all hosts exist already and are modified): every injection delivers the value current at its place"""
+    for n in ("f", "i", "s", "b", "p", "out-dir", "e"):
+        typ, dims, val, unit, props, mods, later = NODES[n]
+        hu = {"m": "cm", "J": "erg"}.get(unit, unit)
+        hosts = [D("left", typ, later[0], hu), D("right", typ, later[0], unit), D("third", typ, None, unit)]
+        for order in ("hosts-first", "hosts-last"):
+            pre = (hosts + tree([n, "i" if n != "i" else "f"])) if order == "hosts-first" else \
+                (tree([n, "i" if n != "i" else "f"]) + hosts)
+            ref = REF("g." + n, None, src)
+            m1 = M("g." + n, mods[0][0], mods[0][1])
+            m2 = M("g." + n, mods[1][0], mods[1][1]) if len(mods) > 1 else M("g." + n, later[0], later[1])
+            base = ["node=" + n, "type=" + typ, "statement=injection-modification", "same-path-twice",
+                    "order=" + order]
+            yield base + ["seq=inject-modify-inject"], pre, [M("left", ref), m1, M("right", ref)], []
+            yield base + ["seq=inject-modify-inject-same-host"], pre, [M("left", ref), m1, M("left", ref)], []
+            yield (base + ["seq=three-injections"], pre,
+                   [M("left", ref), m1, M("right", ref), m2, M("third", ref), M("left", ref)], [])
+            yield base + ["seq=inject-inject-modify-inject"], pre, [M("left", ref), M("right", ref), m1, M("third", ref)], []
+            yield (base + ["seq=host-modified-between"], pre,
+                   [M("left", ref), M("right", later[0]), m1, M("right", ref), M("left", ref)], [])
+            yield (base + ["seq=emptied-between"], pre, [M("left", ref), M("g." + n, G.NONE), M("right", ref)], []) \
+                if not props else (base + ["seq=inject-only"], pre, [M("left", ref), M("right", ref)], [])
+            if unit:
+                yield (base + ["seq=inject-modify-inject-stated-unit"], pre,
+                       [M("left", ref, unit), m1, M("right", ref, hu), m2, M("left", ref)], [])
+
+
+def fam_inject_empty_text(tier, src=None):
+    """injections that deliver the empty string (source is '', was set to '', or a text slice beyond the end): a host
+    that already has a text is MODIFIED to '' like by any other value"""
+    trees = [("defined-empty", [GRP("g"), D("s", "str", S(""), ind=2), D("i", "int", "4", ind=2)], None),
+             ("set-empty", tree(["s", "i"]) + [M("g.s", S(""))], None),
+             ("refilled", tree(["s", "i"]) + [M("g.s", S("")), M("g.s", S("again"))], None),
+             ("slice-beyond-end", tree(["s", "i"]), [[20, None]]),
+             ("slice-at-end", tree(["s", "i"]), [[10, None]]),
+             ("slice-empty-range", tree(["s", "i"]), [[3, 3 + 0]]) if False else
+             ("slice-before-start", tree(["s", "i"]), [[None, 0]])]
+    for ttag, tr, sl in trees:
+        ref = REF("g.s", sl, src)
+        base = ["node=s", "type=str", "empty-text=" + ttag] + (["slice=" + G.render_slice(sl)] if sl else [])
+        b = base + ["statement=injection-modification"]
+        for htag, hdef in (("plain", D("h", "str", S("old"))), ("declared", D("h", "str", None)),
+                           ("defined-empty", D("h", "str", S("")))):
+            yield b + ["host-def=" + htag, "after=nothing"], tr + [hdef], [M("h", ref)], []
+            yield b + ["host-def=" + htag, "after=host-modified"], tr + [hdef], [M("h", ref)], [M("h", S("new"))]
+            yield (b + ["host-def=" + htag, "after=second-injection"], tr + [hdef], [M("h", ref)],
+                   [D("k", "str", REF("h"))])
+        b = base + ["statement=injection-definition"]
+        yield b + ["after=nothing"], tr, [D("h", "str", ref)], []
+        yield b + ["after=host-modified"], tr, [D("h", "str", ref)], [M("h", S("new"))]
+
+
+def fam_inject_precision(tier, src=None):
+    """sources declared float32 / float64 / float128 with 9-10 significant digits: the injected number is the node's
+    value (a declared precision is export information, the value is not rounded to it)"""
+    for tname, txt in itertools.product(("float32", "float64", "float128", "float"),
+                                        ("1.23456789", "1234567.891", "0.000123456789", "16777217")):
+        src_def = dict(D("x", "float", txt, "m", ind=2), tname=tname)
+        tr = [GRP("g"), src_def, D("i", "int", "4", ind=2)]
+        for k in (0, 1):
+            pre = tr + ([M("g.x", "2.718281828", "m")] if k else [])
+            base = ["node=x", "type=float", "precision=" + tname, "digits=" + txt, "source-modified-before=%d" % k]
+            for htn, hu in itertools.product(("float", "float32", "float128"), (None, "cm")):
+                host = dict(D("h", "float", REF("g.x", None, src), hu), tname=htn)
+                yield base + ["statement=injection-definition", "host-type=" + htn, "host-unit=" + str(hu)], pre, [host], []
+            yield (base + ["statement=injection-modification"], pre + [dict(D("h", "float", "7", "cm"), tname="float32")],
+                   [M("h", REF("g.x", None, src))], [])
+            yield (base + ["statement=import"], pre, [IMP("g.*", "bag", src)], [D("k", "float", REF("bag.x"))])
+        arr = dict(D("xs", "float", [txt, "2.5"], "m", [[2, 2]], 2), tname=tname)
+        yield (["node=xs", "type=float", "precision=" + tname, "digits=" + txt, "statement=injection-definition", "array"],
+               [GRP("g"), arr], [D("h", "float", REF("g.xs", None, src), None, [[2, 2]]),
+                                 D("k", "float", REF("g.xs", [[0, 0]], src))], [])
+
+
 def fam_import_extend(tier, src=None):
     """property lines directly below an import that re-creates ONE node extend the imported copy only: the referenced
     node (local or in the remote source), earlier and later imports of it keep their own constraints"""
@@ -604,7 +680,8 @@ def _plain_def(n):
 
 LOCAL_FAMILIES = dict(inject_def=fam_inject_def, inject_mod=fam_inject_mod, inject_bad=fam_inject_bad,
                       imports=fam_import, import_empty=fam_import_empty, reuse_sliced_host=fam_reuse_sliced_host,
-                      inject_none=fam_inject_none, import_extend=fam_import_extend)
+                      inject_none=fam_inject_none, import_extend=fam_import_extend, inject_twice=fam_inject_twice,
+                      inject_empty_text=fam_inject_empty_text, inject_precision=fam_inject_precision)
 
 
 def remote_cases(fam, tier, api):
